@@ -74,6 +74,13 @@ def gen_access(ctx):
         for nt in (NUMTYPES if not ctx.quick else r.sample(NUMTYPES, 4)):
             acc = []
             inctx = False
+            full = ['s', None, None, None]
+            if 0 not in sh[1:]:
+                # the length changes inside a context; reads, writes and further changes must follow
+                acc += [dict(k='enter', mode=r.choice([None, 'r+'])), dict(k='grow', n=2), dict(k='get', index=full),
+                        dict(k='get', index=-1), dict(k='shrink', n=3), dict(k='get', index=full),
+                        dict(k='set', index=-1, value=dict(kind='scalar', value=9)), dict(k='get', index=full),
+                        dict(k='shrink', n=1), dict(k='get', index=full), dict(k='exit'), dict(k='get', index=full)]
             for _ in range(14 if ctx.quick else 30):
                 x = r.random()
                 if x < 0.08 and not inctx:
